@@ -366,10 +366,11 @@ def hist_corpus():
         dict(mods=leaf_mid_top([inst("r", "PhysicalResistor", dict(model="RM1")), inst("m", "Mos", dict(lvt)),
                                 inst("q", "Diode", dict(model="ND2PS_3p3V"))]),
              ops=[["gf180", "direct", 1], ["gf180", "direct", 2], ["sky130", "direct", 2]]),
-        # two independent hierarchies in one process, each compiled to its own PDK, equal requests in both
-        dict(mods=[dict(name="A", insts=[inst("m", "Mos", dict(tp="NMOS", fam="CORE", vth="STD")), inst("n", "Mos", dict(tp="NMOS", fam="CORE", vth="STD"))]),
-                   dict(name="B", insts=[inst("m", "Mos", dict(tp="NMOS", fam="CORE", vth="STD")), inst("n", "Mos", dict(tp="NMOS", fam="CORE", vth="STD"))])],
-             ops=[["sample", "direct", 0], ["sky130", "direct", 1], ["gf180", "direct", 0], ["sky130", "direct", 0]]),
+        # independent hierarchies in one process, each compiled to its own PDK, equal requests in all of them:
+        # every PDK selects its own device, whatever the others built for the same parameters before
+        dict(mods=[dict(name=nm, insts=[inst("m", "Mos", dict(tp="NMOS", fam="CORE", vth="STD")), inst("n", "Mos", dict(tp="NMOS", fam="CORE", vth="STD"))])
+                   for nm in ("A", "B", "C", "D")],
+             ops=[["sample", "direct", 0], ["sky130", "name", 1], ["gf180", "name", 2], ["asap7", "name", 3], ["gf180", "direct", 0], ["sky130", "direct", 0]]),
     ]
 
 
@@ -522,7 +523,9 @@ def run_histories(run, stream, jobs, check_targets=True):
     for j, o in built:
         for f in hist_features(j, o):
             feats[f] = feats.get(f, 0) + 1
-    if check_targets:
+    # the features are read off the implementation's observations: when the stream reports a violation of the property
+    # they say nothing about the generator, and the check fails anyway
+    if check_targets and not groups:
         for tname in HIST_TARGETS:
             if not feats.get(tname):
                 run.violation(f"C15:coverage:histories:{tname}", f"coverage target missed: no history with {tname} (fail closed)",
@@ -532,7 +535,7 @@ def run_histories(run, stream, jobs, check_targets=True):
                compilations=len(steps), raised=sum(1 for s in steps if s["err"] is not None),
                raised_fraction=round(sum(1 for s in steps if s["err"] is not None) / max(1, len(steps)), 3),
                build_failures=len(jobs) - len(built), spec_violation_groups=len(groups), model_disagreements=len(ties),
-               features=feats, patterns={p: sum(1 for j in bj if j.get("pattern") == p) for p in sorted({j.get("pattern", "corpus") for j in bj})},
+               features=feats, patterns={p: sum(1 for j in bj if j.get("pattern", "corpus") == p) for p in sorted({j.get("pattern", "corpus") for j in bj})},
                pdk_sequences=len({tuple(op[0] for op in j["ops"]) for j in bj}),
                rule="non-trivial = at least 2 modules and 2 compilations; distinct by (module table, compilations)")
     if built:
